@@ -99,7 +99,9 @@ SumRun(f, x, y, fast) ==
 \* power-of-two pre/post scaling and the x_max clamp when scale), alg "c" = the classical
 \* Veltkamp splitter (g = C*x, d = x - g, h = g + d); cg = the caller supplied the constant c
 \* K = FConsts(f)
-CfgC(K, cfg) == IF cfg.cg THEN cfg.c ELSE IF cfg.alg = "n" THEN K.N ELSE K.C
+\* (before repo commit 92b9285 the default of alg "n" was K.N = 2^s: a genuine defect, kept as the
+\* negative-control configs nNS / nNU of MC_EFT, where the constant is passed explicitly)
+CfgC(K, cfg) == IF cfg.cg THEN cfg.c ELSE K.C
 \* the constant is 2^k or 2^k + 1 with k = ceil(p/2)
 CfgStd(K, cfg) == ~cfg.cg \/ cfg.c = K.N \/ cfg.c = K.C
 \* k of a constant 2^k (+ 1)
@@ -131,7 +133,7 @@ SplitRunBase(f, K, x, cfg) ==
   IN  [h |-> r.h, l |-> r.l, ok |-> Fin2(f, r.h, r.l)]
 \* L6: the default constant of alg "n" is ambiguous (2^s in the code, 2^s + 1 in its
 \* docstring): the domain is the intersection - finite under both readings
-AmbiguousDefault(cfg) == cfg.alg = "n" /\ ~cfg.cg
+AmbiguousDefault(cfg) == FALSE   \* since 92b9285 code and docstring agree on 2^s + 1
 AltCfg(K, cfg) == [cfg EXCEPT !.cg = TRUE, !.c = K.C]
 SplitRun(f, K, x, cfg) ==
   LET r == SplitRunBase(f, K, x, cfg)
